@@ -13,7 +13,7 @@ def canon(t):
     return min(t, t[::-1])
 
 
-def structure_with_terms(case, variant, rnd):
+def structure_with_terms(case, variant, rnd, dup=False):
     """Adds pre-existing typed terms inside, outside and across the planted copies."""
     from mofun import Atoms
     S = case['structure']
@@ -44,6 +44,11 @@ def structure_with_terms(case, variant, rnd):
         bonds.append((a, b))                                                   # outside
     if len(outside) >= 3:
         angles.append(tuple(outside[:3]))
+    if dup and len(outside) >= 2:
+        # the same atoms listed twice with different types (a bond defined twice, a two-term angle): rows are not keys; far from every match
+        bonds.append((outside[0], outside[1]))
+        if len(outside) >= 3:
+            angles.append(tuple(outside[:3]))
     els = list(S.elements)
     uniq = list(dict.fromkeys(els))
     coeffs = variant != 2
@@ -52,6 +57,9 @@ def structure_with_terms(case, variant, rnd):
               charges=[round(0.01 * i, 4) for i in range(n)], groups=[1] * n, cell=np.array(S.cell),
               bonds=bonds, bond_types=[i % 2 for i in range(len(bonds))], angles=angles, angle_types=[0] * len(angles),
               dihedrals=dihedrals, dihedral_types=[0] * len(dihedrals), impropers=impropers, improper_types=[0] * len(impropers))
+    if dup and len(outside) >= 2:
+        first = bonds.index((outside[0], outside[1]))
+        kw['bond_types'][-1] = 1 - kw['bond_types'][first]          # the repeated bond has the other type
     if coeffs:
         kw.update(pair_coeffs=["lj/s %d.0 # S_%s" % (i, e) for i, e in enumerate(uniq)],
                   bond_type_coeffs=["harmonic 1.0 1.0 # Sb0", "harmonic 2.0 2.0 # Sb1"], angle_type_coeffs=["cosine 3.0 # Sa0"],
@@ -160,7 +168,7 @@ def observed(res, S, exp_atoms, cell):
 def check(spec):
     rnd = random.Random(spec['seed'])
     case = repl.planted(spec['cell'], spec['pair'], spec['copies'], spec['seed'], decoys=spec.get('decoys', 3))
-    S = structure_with_terms(case, spec.get('variant', 0), rnd) if not spec.get('cif_like') else case['structure']
+    S = structure_with_terms(case, spec.get('variant', 0), rnd, dup=spec.get('dup', False)) if not spec.get('cif_like') else case['structure']
     sp, _ = repl.patterns(spec['pair'])
     rp = replacement_with_terms(spec['pair'], coeffs=spec.get('pattern_coeffs', True), long_text=spec.get('long_text', False), same_labels=spec.get('same_labels', False), zero_groups=spec.get('zero_groups', False))
     cell = case['cell']
@@ -168,11 +176,28 @@ def check(spec):
     cur = dict(case, structure=S)
     with quiet():
         try:
-            res, num = repl.do_replace(cur, sp, rp, seed=spec.get('rng', 0))
+            res, num = repl.do_replace(cur, sp, rp, seed=spec.get('rng', 0), **({'replace_fraction': spec['f']} if 'f' in spec else {}))
         except Exception as e:
             return "replace_pattern_in_structure raised %r" % (e,)
-    exp_atoms, exp_terms = expected(S, sp, rp, planted, poses, cell)
-    prob, got_atoms, got_terms = observed(res, S, exp_atoms, cell)
+    if 'f' in spec:
+        # a share of the occurrences is replaced: the result must be what replacing SOME subset of that size gives (which one is the draw's business)
+        import itertools
+        m = round(spec['f'] * len(planted))
+        if num != m:
+            return "reported match count %r, expected %d" % (num, m)
+        first = None
+        for sub in itertools.combinations(range(len(planted)), m):
+            exp_atoms, exp_terms = expected(S, sp, rp, [planted[k] for k in sub], [poses[k] for k in sub], cell)
+            prob, got_atoms, got_terms = observed(res, S, exp_atoms, cell)
+            if not prob and got_terms == exp_terms:
+                break
+            first = first or (prob or "terms differ for every choice of %d replaced occurrences, e.g. unexpected %r, missing %r" % (
+                m, list((got_terms - exp_terms).items())[:2], list((exp_terms - got_terms).items())[:2]))
+        else:
+            return first
+    else:
+        exp_atoms, exp_terms = expected(S, sp, rp, planted, poses, cell)
+        prob, got_atoms, got_terms = observed(res, S, exp_atoms, cell)
     if prob:
         return prob
     if got_terms != exp_terms:
@@ -259,6 +284,23 @@ def run(rec, tier, seed):
             rec.case(repr(sorted(spec.items())), group='single')
             if msg:
                 rec.fail('terms', 'terms', "%s on %r" % (msg, spec), spec, 'C06/replace/terms')
+    # a share of four occurrences replaced (two or three of them, in the order of the draw), patterns with retained atoms and terms on them
+    for pi, pair in enumerate(('swap-element', 'grow-planar', 'shrink-shared', 'grow-interleaved')):
+        for rng in (0, 1, 2, 3):
+            if tier == 'quick' and (pi + rng) % 2:
+                continue
+            spec = dict(cell=['cubic', 'tri+', 'tri-'][(pi + rng) % 3], pair=pair, copies=4, seed=seed * 100 + 20 + pi, variant=rng % 3, pattern_coeffs=(rng % 3 != 2), f=[0.6, 0.75][rng % 2], rng=rng, decoys=2)
+            msg = check(spec)
+            rec.case(repr(sorted(spec.items())), group='fraction')
+            if msg:
+                rec.fail('terms', 'terms', "%s on %r" % (msg, spec), spec, 'C06/replace/terms')
+    # a bond and an angle defined twice (different types) far from every match: both definitions survive
+    for pi, pair in enumerate(('swap-element', 'grow-planar', 'identical')):
+        spec = dict(cell=['cubic', 'tri+', 'tri-'][pi], pair=pair, copies=2, seed=seed * 100 + 30 + pi, variant=pi, pattern_coeffs=(pi != 2), dup=True, rng=pi, decoys=4)
+        msg = check(spec)
+        rec.case(repr(sorted(spec.items())), group='repeated-terms')
+        if msg:
+            rec.fail('terms', 'terms', "%s on %r" % (msg, spec), spec, 'C06/replace/terms')
     for (p1, p2) in (('swap-element', 'single-swap'), ('grow-planar', 'single-swap'), ('single-swap', 'grow-planar')):
         for cell in ('cubic', 'tri+'):
             spec = dict(cell=cell, pair=p1, copies=2, seed=seed * 100 + 60, variant=0, second=p2, long_text=True)
